@@ -29,19 +29,51 @@ EXH_QUERIES = [0, 0.5, 1, 1.5, 2, 2.5, 3, 3.5, 4]
 
 
 # ----------------------------------------------------------------------------- real code
+def ctor_args(case):
+    """the sample and the edge list as the caller hands them over: fresh lists, or (case["np"]) numpy arrays"""
+    import numpy as np
+    how = case.get("np") or ""
+    s, e = list(case["sample"]), list(case["edges"])
+    if how in ("sample", "both"):
+        s = np.array(s)
+    if how in ("edges", "both"):
+        e = np.array(e)
+    return s, e
+
+
+def query_arg(case, x):
+    """a query multiplicity: the Python number, or (case["np"] = "queries" / "both") the numpy scalar"""
+    import numpy as np
+    if case.get("np") in ("queries", "both"):
+        return np.int64(x) if isinstance(x, int) else np.float64(x)
+    return x
+
+
+def decoy(sample):
+    """another object built in between from another sample and other edges (and used): nothing of it may show in the first"""
+    from sparkx.CentralityClasses import CentralityClasses
+    other = CentralityClasses([x + 1000 for x in reversed(list(sample))] + [0, 1, 2, 3], [0, 37, 100])
+    other.get_centrality_class(5)
+    return other
+
+
 def run_impl(case):
     import warnings
     from sparkx.CentralityClasses import CentralityClasses
     with warnings.catch_warnings():
         warnings.simplefilter("ignore")
         try:
-            obj = CentralityClasses(list(case["sample"]), list(case["edges"]))
+            s_in, e_in = ctor_args(case)
+            obj = CentralityClasses(s_in, e_in)
+            if case.get("decoy"):
+                decoy(case["sample"])
+                s_in[:] = 0 if not isinstance(s_in, list) else [0] * len(s_in)     # the caller reuses its sample container
         except Exception as e:
             return {"err": type(e).__name__}
         cls = []
         for x in case["queries"]:
             try:
-                cls.append(int(obj.get_centrality_class(x)))
+                cls.append(int(obj.get_centrality_class(query_arg(case, x))))
             except Exception as e:
                 cls.append(type(e).__name__)
         return {"bins": [float(b) for b in obj.centrality_bins_], "min": [float(v) for v in obj.dNchdetaMin_],
@@ -81,16 +113,24 @@ def oracle(case):
     with warnings.catch_warnings():
         warnings.simplefilter("ignore")
         try:
-            obj = CentralityClasses(list(sample), list(edges))
+            s_in, e_in = ctor_args(case)
+            obj = CentralityClasses(s_in, e_in)
         except Exception as e:
             return f"constructor raises {type(e).__name__}: {e} on an admissible sample/edge list"
+        # state between objects / containers the caller goes on using: another object is built and used in between, and the caller
+        # overwrites the sample container it passed in; the classes were defined by the sample as it was at construction
+        try:
+            decoy(sample)
+            s_in[:] = 0 if not isinstance(s_in, list) else [0] * len(s_in)
+        except Exception as e:
+            return f"building a second CentralityClasses object raises {type(e).__name__}: {e}"
         rec = sorted(sample, reverse=True)
         queries = sorted(set([x for x in case.get("queries", []) if x >= 0] + list(sample)
                              + [x + 0.5 for x in sample] + [max(0, x - 0.5) for x in sample] + [0, max(sample) + 1]))
         got = {}
         for x in queries:
             try:
-                c = obj.get_centrality_class(x)
+                c = obj.get_centrality_class(query_arg(case, x))
             except Exception as e:
                 return f"get_centrality_class({x}) raises {type(e).__name__} (Min={obj.dNchdetaMin_})"
             if not (isinstance(c, (int,)) or hasattr(c, "__index__")) or not (0 <= int(c) < k):
@@ -122,6 +162,18 @@ def oracle(case):
                             f"(not a tie with that class's lower boundary; Min={obj.dNchdetaMin_})")
         if list(obj.centrality_bins_) != cleaned:
             return f"centrality_bins_ = {obj.centrality_bins_} is not the cleaned edge list {cleaned}"
+        # asked again (other order, Python numbers and numpy scalars alike): the same classes
+        import numpy as np
+        for x in reversed(queries):
+            for arg in (x, np.float64(x)):
+                c2 = obj.get_centrality_class(arg)
+                if c2 != got[x]:
+                    return f"get_centrality_class({arg!r}) = {c2} when asked again, {got[x]} the first time (Min={obj.dNchdetaMin_})"
+        # the edge container of the first construction (the constructor may have sorted it in place) used for a second object
+        again = CentralityClasses(list(sample), e_in)
+        if list(again.dNchdetaMin_) != list(obj.dNchdetaMin_) or list(again.dNchdetaMax_) != list(obj.dNchdetaMax_):
+            return (f"a second object built from the same sample and the same edge container stores min={list(again.dNchdetaMin_)} "
+                    f"max={list(again.dNchdetaMax_)}, the first min={list(obj.dNchdetaMin_)} max={list(obj.dNchdetaMax_)}")
         if list(edges) != cleaned:
             ref = CentralityClasses(list(sample), list(cleaned))
             if (list(ref.dNchdetaMin_) != list(obj.dNchdetaMin_) or list(ref.dNchdetaMax_) != list(obj.dNchdetaMax_)
@@ -191,6 +243,10 @@ def gen_case(rng, small=False, decimal=False):
         edges = edges + [rng.choice(edges) for _ in range(rng.randint(0, 2))]
         rng.shuffle(edges)
     case = {"sample": sample, "edges": edges}
+    if rng.random() < 0.3:
+        case["np"] = rng.choice(["sample", "edges", "both", "queries"])      # numpy arrays / numpy scalars as arguments
+    if rng.random() < 0.3:
+        case["decoy"] = True          # another object is built in between and the caller overwrites its sample container
     case["queries"] = default_queries(sample)
     if len(case["queries"]) > 40:
         qs = case["queries"]
@@ -468,22 +524,24 @@ def shrink(case):
 
 def _smaller(c):
     s, e, qs = c["sample"], c["edges"], c.get("queries", [])
+    if c.get("np") or c.get("decoy"):
+        yield {"sample": s, "edges": e, "queries": qs}                 # plain lists / Python numbers, nothing in between
     if qs:
-        yield {"sample": s, "edges": e, "queries": []}
+        yield dict(c, queries=[])
     for i in range(len(s)):
         if len(s) > 4:
-            yield {"sample": s[:i] + s[i + 1:], "edges": e, "queries": qs}
+            yield dict(c, sample=s[:i] + s[i + 1:])
     for i in range(len(e)):
         if len(e) > 2:
-            yield {"sample": s, "edges": e[:i] + e[i + 1:], "queries": qs}
+            yield dict(c, edges=e[:i] + e[i + 1:])
     if list(e) != sorted(set(e)):
-        yield {"sample": s, "edges": sorted(set(e)), "queries": qs}
+        yield dict(c, edges=sorted(set(e)))
     for i, x in enumerate(s):
         for y in (0, 1, x // 2 if isinstance(x, int) else int(x)):
             if 0 <= y < x:
-                yield {"sample": s[:i] + [y] + s[i + 1:], "edges": e, "queries": qs}
+                yield dict(c, sample=s[:i] + [y] + s[i + 1:])
     if s != sorted(s):
-        yield {"sample": sorted(s), "edges": e, "queries": qs}
+        yield dict(c, sample=sorted(s))
 
 
 LEVEL_TEXT = ("Theorems (Coq, all samples of any length >= 4 over any totally pre-ordered multiplicity type, all admissible edge "
